@@ -102,7 +102,7 @@ Theorem C20_retirement_terminates :
     rt_pc_of r <> RtWait None /\
     (forall dl, rt_pc_of r = RtWait (Some dl) -> (dl <= now s + Z.to_N (rt_budget r))%N) /\
     ((Z.to_N (rt_budget r) <= k)%N ->
-       let s' := run_from T s (retire_schedule d k) in
+       let s' := run_from T s (retire_schedule T d k) in
        nth d (dones s') false = true /\ exited s' = false).
 Proof. exact C20_retirement_terminates_proof. Qed.
 Print Assumptions C20_retirement_terminates.
@@ -114,10 +114,39 @@ Theorem C20_retirement_releases :
     let s := run T sched in
     exited s = false -> nth_error (releasers s) x = Some (RWait d) -> nth_error (rets s) d = Some r ->
     (Z.to_N (rt_budget r) <= k)%N ->
-    let s' := run_from T s (retire_schedule d k ++ [AReleaser x; AReleaser x; AReleaser x; AReleaser x]) in
+    let s' := run_from T s (retire_schedule T d k ++ [AReleaser x; AReleaser x; AReleaser x; AReleaser x]) in
     pending s' = false /\ nth_error (releasers s') x = Some (RRun []) /\ supp s' = mute_owed s'.
 Proof. exact C20_retirement_releases_proof. Qed.
 Print Assumptions C20_retirement_releases.
+
+(* "Accepts again only once the previous generation has retired": done is closed only after the old
+   generation's Close() has returned (the tail of the retirement goroutine, with its deferred calls in
+   executed order, is regenerated from cmd/reload_manager.go), so the step in which a release goroutine
+   leaves `<-retirementDone` - the only way a successful reload ever clears reloadPending - happens only
+   when that generation is closed. *)
+Theorem C20_release_only_after_close :
+  forall (T : tables) (sched : list action) (a : action) (x d : nat), tables_ok T = true ->
+    let s := run T sched in
+    (nth d (dones s) false = true -> gen_closed s d = true) /\
+    (nth_error (releasers s) x = Some (RWait d) ->
+     nth_error (releasers (step T s a)) x <> Some (RWait d) -> gen_closed s d = true).
+Proof. exact C20_release_only_after_close_proof. Qed.
+Print Assumptions C20_release_only_after_close.
+
+(* The order matters: with `close(done)` executed before Close() (a deferred Close registered above
+   `defer close(done)`) the lock is free, and a new request is accepted, while the previous generation
+   is still being torn down. *)
+Definition C20_release_only_after_close_any_tail_full : Prop :=
+  forall (T : tables) (sched : list action) (d : nat),
+    let s := run T sched in nth d (dones s) false = true -> gen_closed s d = true.
+Theorem C20_release_only_after_close_any_tail_refuted :
+  exists (T : tables) (sched : list action),
+    t_ret_tail T = [TCancel; TCloseDone; TCloseGen; TCleanup; TOther] /\
+    let s := run T sched in
+    exited s = false /\ gen_closed s 0 = false /\ nth 0 (dones s) false = true /\
+    pending s = true /\ count_ev is_accept (history s) = 2 /\ count_ev is_release (history s) = 1.
+Proof. exact C20_release_only_after_close_any_tail_refuted_proof. Qed.
+Print Assumptions C20_release_only_after_close_any_tail_refuted.
 
 (* The `default:` branch of the non-blocking send in tryQueueReloadRequest is dead: a thread that won
    the CAS always finds room in the channel. *)
